@@ -87,12 +87,12 @@ __CPROVER_requires(__exc == 0 && __caught_n == 0 && g_pop_n == 0 && g_emplace_n 
 __CPROVER_assigns(__CPROVER_object_whole(this))
 PROP(C01, C11) __CPROVER_ensures(OK)
 /* a replaced definition is put back in its own entry, wherever that entry is, and nothing else moves */
-PROP(C11, C15) __CPROVER_ensures((__CPROVER_old(BACKED) != 0 && HOLDS_NEW(0)) ==> (ENT_FUN(0) == OLD && UNCHANGED(1) && UNCHANGED(2)))
-PROP(C11, C15) __CPROVER_ensures((__CPROVER_old(BACKED) != 0 && HOLDS_NEW(1)) ==> (ENT_FUN(1) == OLD && UNCHANGED(0) && UNCHANGED(2)))
-PROP(C11, C15) __CPROVER_ensures((__CPROVER_old(BACKED) != 0 && HOLDS_NEW(2)) ==> (ENT_FUN(2) == OLD && UNCHANGED(0) && UNCHANGED(1)))
-PROP(C11, C15) __CPROVER_ensures(__CPROVER_old(BACKED) != 0 ==> (g_decls_len == __CPROVER_old(g_decls_len) && g_pop_n == 0))
+PROP(C01, C11, C15) __CPROVER_ensures((__CPROVER_old(BACKED) != 0 && HOLDS_NEW(0)) ==> (ENT_FUN(0) == OLD && UNCHANGED(1) && UNCHANGED(2)))
+PROP(C01, C11, C15) __CPROVER_ensures((__CPROVER_old(BACKED) != 0 && HOLDS_NEW(1)) ==> (ENT_FUN(1) == OLD && UNCHANGED(0) && UNCHANGED(2)))
+PROP(C01, C11, C15) __CPROVER_ensures((__CPROVER_old(BACKED) != 0 && HOLDS_NEW(2)) ==> (ENT_FUN(2) == OLD && UNCHANGED(0) && UNCHANGED(1)))
+PROP(C01, C11, C15) __CPROVER_ensures(__CPROVER_old(BACKED) != 0 ==> (g_decls_len == __CPROVER_old(g_decls_len) && g_pop_n == 0))
 /* a definition that was new is removed again, and only it */
-PROP(C11, C15) __CPROVER_ensures(__CPROVER_old(BACKED) == 0 ==> (g_decls_len == (__CPROVER_old(g_decls_len) > 0 ? __CPROVER_old(g_decls_len) - 1 : 0) && UNCHANGED(0) && UNCHANGED(1) && UNCHANGED(2)))
+PROP(C01, C11, C15) __CPROVER_ensures(__CPROVER_old(BACKED) == 0 ==> (g_decls_len == (__CPROVER_old(g_decls_len) > 0 ? __CPROVER_old(g_decls_len) - 1 : 0) && UNCHANGED(0) && UNCHANGED(1) && UNCHANGED(2)))
 ;
 #endif
 
@@ -107,11 +107,11 @@ __CPROVER_requires(__exc == 0 && __caught_n == 0 && g_pop_n == 0 && g_emplace_n 
 __CPROVER_assigns(__CPROVER_object_whole(this))
 PROP(C01, C11) __CPROVER_ensures(OK)
 /* an existing declaration of that name and arity: its entry is handed out empty and its definition is saved */
-PROP(C11, C15) __CPROVER_ensures(FOUND(0) ==> (RET == &g_decls[0] && ENT_FUN(0) == 0 && BACKED == &g_fun[0] && UNCHANGED(1) && UNCHANGED(2) && g_decls_len == __CPROVER_old(g_decls_len)))
-PROP(C11, C15) __CPROVER_ensures(FOUND(1) ==> (RET == &g_decls[1] && ENT_FUN(1) == 0 && BACKED == &g_fun[1] && UNCHANGED(0) && UNCHANGED(2) && g_decls_len == __CPROVER_old(g_decls_len)))
-PROP(C11, C15) __CPROVER_ensures(FOUND(2) ==> (RET == &g_decls[2] && ENT_FUN(2) == 0 && BACKED == &g_fun[2] && UNCHANGED(0) && UNCHANGED(1) && g_decls_len == __CPROVER_old(g_decls_len)))
+PROP(C01, C11, C15) __CPROVER_ensures(FOUND(0) ==> (RET == &g_decls[0] && ENT_FUN(0) == 0 && BACKED == &g_fun[0] && UNCHANGED(1) && UNCHANGED(2) && g_decls_len == __CPROVER_old(g_decls_len)))
+PROP(C01, C11, C15) __CPROVER_ensures(FOUND(1) ==> (RET == &g_decls[1] && ENT_FUN(1) == 0 && BACKED == &g_fun[1] && UNCHANGED(0) && UNCHANGED(2) && g_decls_len == __CPROVER_old(g_decls_len)))
+PROP(C01, C11, C15) __CPROVER_ensures(FOUND(2) ==> (RET == &g_decls[2] && ENT_FUN(2) == 0 && BACKED == &g_fun[2] && UNCHANGED(0) && UNCHANGED(1) && g_decls_len == __CPROVER_old(g_decls_len)))
 /* otherwise a new entry is appended, nothing is saved, the others are not touched */
-PROP(C11, C15) __CPROVER_ensures((!FOUND(0) && !FOUND(1) && !FOUND(2)) ==> (g_decls_len == __CPROVER_old(g_decls_len) + 1 && RET == &g_decls[__CPROVER_old(g_decls_len)] && FP(&RET->functor) != 0 && BACKED == 0 &&
+PROP(C01, C11, C15) __CPROVER_ensures((!FOUND(0) && !FOUND(1) && !FOUND(2)) ==> (g_decls_len == __CPROVER_old(g_decls_len) + 1 && RET == &g_decls[__CPROVER_old(g_decls_len)] && FP(&RET->functor) != 0 && BACKED == 0 &&
                              (__CPROVER_old(g_decls_len) > 0 ==> UNCHANGED(0)) && (__CPROVER_old(g_decls_len) > 1 ==> UNCHANGED(1)) && (__CPROVER_old(g_decls_len) > 2 ==> UNCHANGED(2))))
 ;
 #endif
